@@ -354,8 +354,9 @@ def translate_others(prop, notes):
                 continue
             info = fn(REPO, LEAN) or {}
             out[m.group(1).upper()] = {'changed': bool(info.get('changed'))}
-        except Exception as e:   # another property's translator must never break this check
+        except Exception as e:   # reported as a broken obligation by the caller (the generated files may be stale)
             notes.append('translator of %s failed: %r' % (m.group(1).upper(), e))
+            out[m.group(1).upper()] = {'changed': False, 'failed': repr(e)[:300]}
     return out
 
 
@@ -514,6 +515,9 @@ def _run_check(prop, tier='quick', seed=None, replay=None):
         # a source-derived tie of this property whose anchors vanished: its generated file was not rewritten, so the theorems
         # over it speak about the committed (stale) facts — the obligation is no longer discharged against the current source
         ua = unavailable_ties(gen_info)
+        # another property's translator raised: the generated files this property's theorems may rest on were not refreshed
+        ua += ['translator of %s failed: %s' % (k, v['failed']) for k, v in (gen_info.get('other_generated') or {}).items()
+               if isinstance(v, dict) and v.get('failed')]
         if ua:
             proof_broken = {'where': 'tie unavailable: ' + '; '.join(ua)[:600], 'log': '', 'tie_unavailable': ua}
             notes.append('source-derived tie unavailable (anchors not found): ' + '; '.join(ua)[:300])
